@@ -34,6 +34,7 @@ ASSUMPTIONS = [
     "the wall-clock watchdog around a shard only ever yields INCONCLUSIVE",
 ]
 TIMEOUT = {"quick": 1200, "thorough": 8 * 3600}
+OPTIMIZED_SHARDS = ("deep00", "rand00", "mut01")  # these shards also run under python -O
 NSH = 16
 ALPHABET = ["0", "F", ":", "\n", " ", "x", "é"]
 BUDGET_A, BUDGET_B = 3_000_000, 30_000
